@@ -5,3 +5,4 @@ import HvProps.C06
 import HvProps.C03
 import HvProps.C02
 import HvProps.C01
+import HvProps.C10
